@@ -329,11 +329,50 @@ def case_loadcase(ctx, which, dim, axis=0, sym=True, clamped=False, axes=(0, 1))
         _expect(ctx, "shear", dim, idx, nn, rules, lc["dof0"], lc["ext0"], npnt)
 
 
+def case_loadcase_explicit(ctx, which, clamped=False):
+    """load cases with EXPLICIT end-face positions, one of them exactly 0.0, on a mesh that extends below zero (x, y in {-1, 0, 1}):
+    the given planes are used, not the mesh extrema"""
+    with ctx.concrete():
+        m = fem.Rectangle(a=(-1, -1), b=(1, 1), n=3)
+        region = fem.RegionQuad(m)
+        field = fem.FieldContainer([fem.Field(region, dim=2)])
+    sym_values(ctx, field, tag="u")
+    X = m.points
+    move = ctx.var("move", -1, 1)
+    dim, npnt = 2, m.npoints
+    if which == "uniaxial":
+        bounds, lc = fem.dof.uniaxial(field, left=0.0, right=1.0, move=move, axis=0, clamped=clamped, sym=False)
+        rules = [(0, 0.0, [0], 0)]
+        if clamped:
+            rules += [(0, 1.0, [1], 0), (0, 0.0, [1], 0)]
+        rules.append((0, 1.0, [0], move))
+    else:
+        m2 = ctx.var("move2", -1, 1)
+        bounds, lc = fem.dof.biaxial(field, lefts=(0.0, -1.0), rights=(1.0, 0.0), moves=(move, m2), axes=(0, 1), clampes=(clamped, clamped), sym=False)
+        rules = [(0, 0.0, [0], -move), (1, -1.0, [1], -m2)]
+        for a, lft, rgt, mv in ((0, 0.0, 1.0, move), (1, -1.0, 0.0, m2)):
+            if clamped:
+                rules += [(a, rgt, [1 - a], 0), (a, lft, [1 - a], 0)]
+            rules.append((a, rgt, [a], mv))
+    exp = {}
+    for ax, coord, comps, val in rules:
+        for p_ in range(npnt):
+            if abs(X[p_, ax] - coord) < 1e-12:
+                for c in comps:
+                    exp[dim * p_ + c] = val
+    ctx.check_concrete("%s_uses_the_given_planes" % which, sorted(exp) == [int(k) for k in lc["dof0"]], "dof0 %s expected %s" % (list(lc["dof0"]), sorted(exp)))
+    if sorted(exp) == [int(k) for k in lc["dof0"]]:
+        ctx.equal("%s_prescribed_values_on_the_given_planes" % which, lc["ext0"], np.array([exp[k] for k in sorted(exp)], dtype=object if ctx.sym else float))
+
+
 def cases(tier):
     out = [("numbering", case_numbering, {})]
     for v in ("plain", "cellless", "mixed", "scalar_same_mesh"):
         out.append(("partition_masks", case_partition_masks, {"variant": v}))
     out.append(("array_values", case_array_values, {}))
+    for which in ("uniaxial", "biaxial"):
+        for cl in (False, True):
+            out.append(("loadcase_explicit", case_loadcase_explicit, {"which": which, "clamped": cl}))
     for via in ("fx", "point_mask"):
         for skip in ([False], [True]):
             out.append(("scalar_boundary", case_scalar_boundary, {"skip": skip, "via": via}))
